@@ -214,9 +214,46 @@ class C03(Prop):
                         groups.append([j, [v for chunks in per_col for v in chunks[len(chunks) - 1 - t]]])
             ref[key_of(groups)] += 1
             ref_b[built_key(builds, [[t, ref_shape(builds[t], g)] for t, g in groups])] += 1
-        return {"outs": outs, "hist": sorted(hist.items()), "ref": sorted(ref.items()),
-                "hist_built": sorted(hist_b.items()), "ref_built": sorted(ref_b.items()),
-                "n_tuples": len(outs), "unscripted_shuffles": unscripted, "shuffles_missing": sorted(missing)}
+        obs = {"outs": outs, "hist": sorted(hist.items()), "ref": sorted(ref.items()),
+               "hist_built": sorted(hist_b.items()), "ref_built": sorted(ref_b.items()),
+               "n_tuples": len(outs), "unscripted_shuffles": unscripted, "shuffles_missing": sorted(missing)}
+        if unscripted or missing:
+            # the code did not draw its permutations through one permutation event per stub list (it may draw them some other,
+            # equally valid way, or not at all): the enumeration over scripted permutations says nothing then, and the law is
+            # estimated from the real generator instead (see oracle)
+            obs["monte_carlo"] = self._monte_carlo(case, builds)
+        return obs
+
+    MC_RUNS = 40000
+
+    def _monte_carlo(self, case, builds):
+        import random
+        state = random.getstate()
+        random.seed(20260930)
+        h, hb = collections.Counter(), collections.Counter()
+        c = dict(case)
+        c["draws"] = [[] for _ in case["sizes"]]
+        try:
+            for _ in range(self.MC_RUNS):
+                o = gc.run_generator(c, "direct", real_rng=True)
+                h[key_of([[x["top"], x["verts"]] for x in o["calls"]])] += 1
+                hb[built_key(builds, [[x["top"], sorted(sorted(e) for e in x["result"])] for x in o["calls"]])] += 1
+        finally:
+            random.setstate(state)
+        return {"n": self.MC_RUNS, "hist": sorted(h.items()), "hist_built": sorted(hb.items())}
+
+    @staticmethod
+    def _chernoff(x, n, p):
+        """n * KL(x/n || p): P(a Binomial(n, p) count is at least as far from n*p as x, on the same side) <= exp(-this)"""
+        q = x / n
+        if q == p:
+            return 0.0
+        kl = 0.0
+        if q > 0:
+            kl += q * math.log(q / p)
+        if q < 1:
+            kl += (1 - q) * math.log((1 - q) / (1 - p)) if p < 1 else float("inf")
+        return n * kl
 
     @staticmethod
     def _symmetry(case):
@@ -300,6 +337,25 @@ class C03(Prop):
                 f.append(f"shuffle-not-bijective: {len(set(rs))} distinct arrangements from {len(rs)} draw sequences for n={n}")
             return f
         f = []
+        if obs.get("monte_carlo"):
+            # randomness drawn in a way the script does not recognise: judged on 40000 real generations; a placement counts as
+            # mis-weighted only when its frequency is so far from the configuration-model probability that the Chernoff bound
+            # puts the chance of that under the measure below e^-40 (about 4e-18)
+            mc = obs["monte_carlo"]
+            n = mc["n"]
+            for label, got, ref in (("placement", dict(mc["hist"]), dict(obs["ref"])), ("built-placement", dict(mc["hist_built"]), dict(obs["ref_built"]))):
+                tot = sum(ref.values())
+                outside = [k for k in got if k not in ref]
+                if outside:
+                    f.append(f"{label}-outside-the-space: {outside[0]} is produced, the configuration-model measure gives it probability 0")
+                    break
+                worst = max(ref, key=lambda k: self._chernoff(got.get(k, 0), n, ref[k] / tot))
+                if self._chernoff(got.get(worst, 0), n, ref[worst] / tot) > 40:
+                    kind = "unreachable" if got.get(worst, 0) == 0 else "not-uniform"
+                    f.append(f"{label}-{kind}: {worst} came up {got.get(worst, 0)} times in {n} generations, the configuration-model "
+                             f"measure gives probability {ref[worst]}/{tot} (expected {n * ref[worst] / tot:.0f})")
+                    break
+            return f
         if obs["hist"] != obs["ref"]:
             h, r = dict(obs["hist"]), dict(obs["ref"])
             unreachable = [k for k in r if k not in h]
